@@ -232,6 +232,26 @@ def run_config(world: T.Dict[str, T.Any], urls: T.Dict[str, str]) -> T.Tuple[T.L
     """All dependency() calls of one configuration, in order; stops at the first error."""
     st = State()
     out: T.List[T.Any] = []
+    for pre in world.get('pre', []):
+        if pre['kind'] == 'override':
+            # meson.override_dependency() in the top project: wins over everything for later lookups
+            st.overrides['foo'] = (True, 'internal', pre['version']) if pre.get('found', True) else (False, 'not-found', None)
+        elif pre['kind'] == 'subproject':
+            # an unconditional subproject('foosub', required: false) call: not subject to nofallback
+            sub = world.get('sub')
+            if sub is None:
+                continue
+            acq = acquire(sub, world.get('net', {}), world.get('wrap_mode', 'default'), urls)
+            for u, n in acq.requests.items():
+                st.requests[u] = st.requests.get(u, 0) + n
+            st.sub_acq = acq
+            if acq.ok and sub.get('configures', True):
+                st.sub_state = 'ok'
+                version, does_override, _ = sub_yield(sub, acq)
+                if does_override:
+                    st.overrides.setdefault('foo', (True, 'internal', version))
+            else:
+                st.sub_state = 'failed'
     for call in world['calls']:
         r = lookup(call, world, st, urls)
         out.append(r)
